@@ -460,6 +460,21 @@ def separator_in_list_element(tree_info):
     return any(isinstance(e, str) and "," in e for e in elements)
 
 
+def outside_roundtrip_domains(fmt, obj):
+    if fmt == "treeinfo":
+        if separator_in_list_element(obj):
+            return "separator-in-list-element"     # '[tree] arch = a,b': a legal free-form string that the INI encoding joins into comma lists
+        if any(v.type == "addon" for v in obj.variants.variants.values()):
+            return "top-level-addon"               # written as [addon-X], looked up as [variant-X]: C04 keeps addons below a parent
+    if fmt == "images":
+        for variant in obj.images:
+            for arch in obj.images[variant]:
+                paths = [img.path for img in obj.images[variant][arch]]
+                if len(paths) != len(set(paths)):
+                    return "same-path-twice-in-a-cell"   # C02/C08 quantify over distinct paths per cell (records are ordered by path only)
+    return None
+
+
 def meta_case(case):
     fmt = case["format"]
     text = must("dump-valid-object", valid_text, fmt, case["desc"])
@@ -472,10 +487,11 @@ def meta_case(case):
         return {"nontrivial": True, "labels": [fmt, "rejected"]}
     # the load succeeded: everything obtained from it must satisfy what writing enforces
     first = must("loaded-object-cannot-be-written[%s]" % fmt, (lambda: tim.dump_text(obj, None)) if fmt == "treeinfo" else obj.dumps)
-    if fmt == "treeinfo" and separator_in_list_element(obj):
-        # '[tree] arch = a,b' and friends: the value is a legal free-form string, but the INI encoding joins it into comma-separated
-        # lists; what a second cycle yields is outside the statement (which ends at "can be written")
-        return {"nontrivial": True, "labels": [fmt, "load-succeeded", "separator-in-list-element"]}
+    outside = outside_roundtrip_domains(fmt, obj)
+    if outside:
+        # the statement ends at "can be written"; what a second cycle yields is promised by C02/C04/C08 for their own domains
+        # only, and this object is outside them
+        return {"nontrivial": True, "labels": [fmt, "load-succeeded", outside]}
     again = cls()
     must("written-document-cannot-be-reloaded[%s]" % fmt, again.loads, first)
     second = must("reloaded-object-cannot-be-written[%s]" % fmt, (lambda: tim.dump_text(again, None)) if fmt == "treeinfo" else again.dumps)
